@@ -1,7 +1,134 @@
-import OdfModel.LoadSax
-namespace OdfModel.Props.C05
-open OdfModel OdfModel.Xml OdfModel.LoadSax
+/-
+  Property C05 — load then save preserves a package produced by any application.
 
-theorem placeholder : stylesPartOf sStylesXml = true := by decide
+  Model: `OdfModel.LoadSax` (`fixXmlPart` at character level, LoadParser over SAX events) and `OdfModel.Pkg`
+  (the manifest dispatch of `load`, `save`).  Foreign XML is NOT parsed by the reference parser of the XML layer
+  (it only knows the sub-language the library writes): expat is the trusted front end, the model starts from the
+  namespace-resolved event stream.  Tie: harness/c05.py (real `__fixXmlPart` on the text of every part vs
+  `fixXmlPart`; recorded SAX streams through the model vs the loaded document; drv_pkg for the dispatch).
+
+  PARTIAL by construction (DESIGN.md §7): the link "text of a part ↦ event stream" is expat's.
+-/
+import OdfModel.Props.C04
+import OdfModel.Pkg
+namespace OdfModel.Props.C05
+open OdfModel OdfModel.Xml OdfModel.LoadSax OdfModel.Props.C04
+
+/-! ### `__fixXmlPart` -/
+
+/-- every requested prefix is declared somewhere in the text with a BLANK in front of `xmlns:` -/
+def DeclaresWithSpace (x : Str) : Prop := ∀ p ∈ requested, isInfix (sXmlnsSp ++ p) x = true
+
+instance (x : Str) : Decidable (DeclaresWithSpace x) := by unfold DeclaresWithSpace; infer_instance
+
+theorem foldl_fixStep_id (x : Str) (ps : List Str) (h : ∀ p ∈ ps, isInfix (sXmlnsSp ++ p) x = true) (r : Str) :
+    ps.foldl (fixStep x) r = r := by
+  induction ps generalizing r with
+  | nil => rfl
+  | cons p ps ih =>
+    simp only [List.foldl_cons]
+    have hp : fixStep x r p = r := by simp [fixStep, h p (by simp)]
+    rw [hp]
+    exact ih (fun q hq => h q (by simp [hq])) r
+
+/-- **C05 (fix_identity)**: a part that declares the nine prefixes the way the test looks for them is not touched. -/
+theorem fix_identity (x : Str) (h : DeclaresWithSpace x) : fixXmlPart x = x :=
+  foldl_fixStep_id x requested h x
+
+/-- … and a part without any `" xmlns:"` is not touched either (`index` raises, `except: pass`): this is why
+    declarations that are ALL separated by newlines are accidentally fine -/
+theorem fix_no_anchor (x : Str) (h : indexOf sXmlnsSp x = none) : fixXmlPart x = x := by
+  have : ∀ (ps : List Str), ps.foldl (fixStep x) x = x := by
+    intro ps
+    induction ps with
+    | nil => rfl
+    | cons p ps ih =>
+      simp only [List.foldl_cons]
+      have hp : fixStep x x p = x := by unfold fixStep; split <;> simp [h]
+      rw [hp]; exact ih
+  exact this requested
+
+/-! #### a scanner for the attribute names of the first start tag (specification side, any XML white space) -/
+
+def isWs (c : Cp) : Bool := c == 32 || c == 9 || c == 10 || c == 13
+
+/-- mode 0: inside the element name; 1: between attributes; 2: inside an attribute name (`cur`); 3: after the name,
+    before the value; 4: inside a value quoted with `q`.  Stops at the `>` that ends the tag. -/
+def scanAttrs : Nat → Str → Cp → Str → List Str
+  | _, _, _, [] => []
+  | 0, cur, q, c :: r => if c == 62 then [] else if isWs c || c == 47 then scanAttrs 1 [] q r else scanAttrs 0 cur q r
+  | 1, cur, q, c :: r => if c == 62 then [] else if isWs c || c == 47 then scanAttrs 1 [] q r else scanAttrs 2 [c] q r
+  | 2, cur, q, c :: r =>
+    if c == 62 then [cur] else if c == 61 || isWs c then cur :: scanAttrs 3 [] q r else scanAttrs 2 (cur ++ [c]) q r
+  | 3, cur, q, c :: r =>
+    if c == 62 then [] else if c == 34 || c == 39 then scanAttrs 4 [] c r else scanAttrs 3 cur q r
+  | _, cur, q, c :: r => if c == q then scanAttrs 1 [] q r else scanAttrs 4 cur q r
+
+/-- the text after the first `?>` (the XML declaration), from the first `<` on, without that `<` -/
+def afterProlog : Str → Str
+  | 63 :: 62 :: r => (r.dropWhile (· != 60)).drop 1
+  | _ :: r => afterProlog r
+  | [] => []
+
+def rootAttrNames (x : Str) : List Str := scanAttrs 0 [] 0 (afterProlog x)
+
+/-- the markup (everything between `<` and the matching `>`) and the character data of a text without `>` inside
+    attribute values -/
+def splitMarkup : Bool → Str → Str × Str
+  | _, [] => ([], [])
+  | true, c :: r => let p := splitMarkup (c != 62) r; (c :: p.1, p.2)
+  | false, c :: r => if c == 60 then let p := splitMarkup true r; (c :: p.1, p.2) else let p := splitMarkup false r; (p.1, c :: p.2)
+
+/-! #### the parse step, with expat as a parameter -/
+
+/-- what a conforming XML processor must do with a start tag that names an attribute twice (well-formedness
+    constraint "Unique Att Spec") -/
+def RejectsDuplicateRootAttr (P : Str → Option (List Event)) : Prop :=
+  ∀ x, ¬ (rootAttrNames x).Nodup → P x = none
+
+/-- one iteration of `__loadxmlparts`: `__fixXmlPart`, parse, LoadParser; a `SAXParseException` is printed and
+    SWALLOWED (`none` of the parser ↦ the document as it was).  Exact when the error is in the root start tag (no
+    event has been delivered yet), which is where `__fixXmlPart` splices. -/
+def loadText (P : Str → Option (List Event)) (member : Str) (l : Loaded) (x : Str) : Loaded :=
+  match P (fixXmlPart x) with
+  | none => l
+  | some evs => (loadPart (stylesPartOf member) l evs).getD l
+
+/-- content.xml: the first declaration after a blank, `xmlns:meta` after newline + TAB, a body with one paragraph -/
+def w1 : Str := [60, 63, 120, 109, 108, 32, 118, 101, 114, 115, 105, 111, 110, 61, 39, 49, 46, 48, 39, 32, 101, 110, 99, 111, 100, 105, 110, 103, 61, 39, 85, 84, 70, 45, 56, 39, 63, 62, 10, 60, 111, 58, 100, 111, 99, 117, 109, 101, 110, 116, 45, 99, 111, 110, 116, 101, 110, 116, 32, 120, 109, 108, 110, 115, 58, 111, 61, 34, 117, 114, 110, 58, 111, 97, 115, 105, 115, 58, 110, 97, 109, 101, 115, 58, 116, 99, 58, 111, 112, 101, 110, 100, 111, 99, 117, 109, 101, 110, 116, 58, 120, 109, 108, 110, 115, 58, 111, 102, 102, 105, 99, 101, 58, 49, 46, 48, 34, 10, 9, 120, 109, 108, 110, 115, 58, 109, 101, 116, 97, 61, 34, 117, 114, 110, 58, 109, 34, 62, 60, 111, 58, 98, 111, 100, 121, 62, 60, 117, 58, 112, 32, 120, 109, 108, 110, 115, 58, 117, 61, 34, 117, 34, 47, 62, 60, 47, 111, 58, 98, 111, 100, 121, 62, 60, 47, 111, 58, 100, 111, 99, 117, 109, 101, 110, 116, 45, 99, 111, 110, 116, 101, 110, 116, 62]
+
+/-- `xmlns:meta` -/
+def sXmlnsMeta : Str := [120, 109, 108, 110, 115, 58, 109, 101, 116, 97]
+
+/-- **known finding KF-C05-1, proved**: in `w1` every attribute of the root tag is named once, and `xmlns:meta` is
+    declared; `__fixXmlPart` does not see the declaration (no blank in front of it) and splices a second `xmlns:meta`
+    into the same tag … -/
+theorem fix_finding_duplicate_xmlns :
+    (rootAttrNames w1).Nodup ∧ sXmlnsMeta ∈ rootAttrNames w1 ∧
+    (rootAttrNames (fixXmlPart w1)).count sXmlnsMeta = 2 ∧ ¬ (rootAttrNames (fixXmlPart w1)).Nodup := by
+  decide +kernel
+
+/-- … so every conforming parser rejects the patched text, the exception is swallowed, and the part is silently
+    dropped: the document is what it was before (body empty), whatever the part contained. -/
+theorem fix_finding_part_dropped (P : Str → Option (List Event)) (hP : RejectsDuplicateRootAttr P)
+    (member : Str) (l : Loaded) : loadText P member l w1 = l := by
+  unfold loadText
+  rw [hP _ fix_finding_duplicate_xmlns.2.2.2]
+
+/-- content.xml with newline-separated declarations and the words ` xmlns:x` in a paragraph -/
+def w2 : Str := [60, 63, 120, 109, 108, 32, 118, 101, 114, 115, 105, 111, 110, 61, 39, 49, 46, 48, 39, 32, 101, 110, 99, 111, 100, 105, 110, 103, 61, 39, 85, 84, 70, 45, 56, 39, 63, 62, 10, 60, 111, 58, 100, 111, 99, 117, 109, 101, 110, 116, 45, 99, 111, 110, 116, 101, 110, 116, 10, 120, 109, 108, 110, 115, 58, 111, 61, 34, 117, 114, 110, 58, 111, 97, 115, 105, 115, 58, 110, 97, 109, 101, 115, 58, 116, 99, 58, 111, 112, 101, 110, 100, 111, 99, 117, 109, 101, 110, 116, 58, 120, 109, 108, 110, 115, 58, 111, 102, 102, 105, 99, 101, 58, 49, 46, 48, 34, 62, 60, 111, 58, 98, 111, 100, 121, 62, 60, 117, 58, 112, 10, 120, 109, 108, 110, 115, 58, 117, 61, 34, 117, 34, 62, 115, 97, 121, 32, 120, 109, 108, 110, 115, 58, 120, 60, 47, 117, 58, 112, 62, 60, 47, 111, 58, 98, 111, 100, 121, 62, 60, 47, 111, 58, 100, 111, 99, 117, 109, 101, 110, 116, 45, 99, 111, 110, 116, 101, 110, 116, 62]
+
+/-- **known finding KF-C05-2, proved**: in `w2` the first `" xmlns:"` lies in character data; `__fixXmlPart` leaves
+    all markup as it is and makes the character data 553 characters longer (nine declarations inside the sentence). -/
+theorem fix_finding_splice_in_text :
+    (splitMarkup false (fixXmlPart w2)).1 = (splitMarkup false w2).1 ∧
+    (splitMarkup false w2).2.length = 12 ∧ (splitMarkup false (fixXmlPart w2)).2.length = 12 + 553 := by
+  decide +kernel
+
+/-- a part that satisfies `fix_identity`: all nine prefixes declared after a blank -/
+def w3 : Str := [60, 63, 120, 109, 108, 32, 118, 101, 114, 115, 105, 111, 110, 61, 39, 49, 46, 48, 39, 32, 101, 110, 99, 111, 100, 105, 110, 103, 61, 39, 85, 84, 70, 45, 56, 39, 63, 62, 10, 60, 111, 58, 100, 111, 99, 117, 109, 101, 110, 116, 45, 99, 111, 110, 116, 101, 110, 116, 32, 120, 109, 108, 110, 115, 58, 111, 61, 34, 117, 114, 110, 58, 111, 97, 115, 105, 115, 58, 110, 97, 109, 101, 115, 58, 116, 99, 58, 111, 112, 101, 110, 100, 111, 99, 117, 109, 101, 110, 116, 58, 120, 109, 108, 110, 115, 58, 111, 102, 102, 105, 99, 101, 58, 49, 46, 48, 34, 32, 120, 109, 108, 110, 115, 58, 109, 101, 116, 97, 61, 34, 109, 34, 32, 120, 109, 108, 110, 115, 58, 99, 111, 110, 102, 105, 103, 61, 34, 99, 34, 32, 120, 109, 108, 110, 115, 58, 100, 99, 61, 34, 100, 34, 32, 120, 109, 108, 110, 115, 58, 115, 116, 121, 108, 101, 61, 34, 115, 34, 32, 120, 109, 108, 110, 115, 58, 115, 118, 103, 61, 34, 118, 34, 32, 120, 109, 108, 110, 115, 58, 102, 111, 61, 34, 102, 34, 32, 120, 109, 108, 110, 115, 58, 100, 114, 97, 119, 61, 34, 114, 34, 32, 120, 109, 108, 110, 115, 58, 116, 97, 98, 108, 101, 61, 34, 116, 34, 32, 120, 109, 108, 110, 115, 58, 102, 111, 114, 109, 61, 34, 103, 34, 62, 60, 111, 58, 98, 111, 100, 121, 47, 62, 60, 47, 111, 58, 100, 111, 99, 117, 109, 101, 110, 116, 45, 99, 111, 110, 116, 101, 110, 116, 62]
+
+/-- non-vacuity of `fix_identity` -/
+example : DeclaresWithSpace w3 := by decide +kernel
 
 end OdfModel.Props.C05
